@@ -313,6 +313,13 @@ def gen_settings(rng):
     s['minInc'] = float(10 ** rng.uniform(-3.3, np.log10(0.3)))
     if rng.random() < 0.05:
         s['minInc'] = float(10 ** rng.uniform(-5, -3.3))
+    if rng.random() < 0.15:
+        # exactly on the cut-back ladder of the first increment (inc *= 0.3 repeatedly, the same float operations): the boundary
+        # case of every comparison with minInc
+        x = s['initialInc']
+        for _ in range(int(rng.integers(1, 5))):
+            x *= 0.3
+        s['minInc'] = float(x)
     s['maxInc'] = float(rng.choice([1.0, 0.5, 0.2]) if rng.random() < 0.6 else 10 ** rng.uniform(-2, 0))
     s['maxNumIter'] = int(rng.integers(2, 41))
     s['too_slow_TOL'] = float(rng.choice([0.01, 0.0, 0.1, 0.3]))
